@@ -347,3 +347,116 @@ Proof.
   - apply ast_position_from_equiv; assumption.
   - apply ast_position_to_equiv; assumption.
 Qed.
+
+(* ------------------------------------------------------------------------------------ *)
+(* The range wrappers, and the same facts for ANY program that contains the translated   *)
+(* codec functions (so that another translated module - text_document.py - can be linked *)
+(* with them: Proofs/AstDocEquiv.v).                                                     *)
+
+Notation q_range_from := ["PositionCodec"; "range_from_client_units"] (only parsing).
+Notation q_range_to := ["PositionCodec"; "range_to_client_units"] (only parsing).
+
+Definition py_range (r : (N * N) * (N * N)) : val :=
+  VObj "Range" [("start", py_pos (fst r)); ("end", py_pos (snd r))].
+
+(* enough fuel for the walk on every line *)
+Definition lines_fuel (f : nat) (lines : list (list N)) : Prop :=
+  forall l : nat, (length (nth l lines []) < f)%nat.
+
+Definition spec_from (call : callT) (f : nat) : Prop := forall encv lines p, lines_fuel f lines ->
+  call q_from (Some (codec_self encv)) [py_lines lines; py_pos p] [] =
+  Ok (py_pos (fst (position_from_client_units (enc_of encv) lines p))).
+
+Definition spec_to (call : callT) : Prop := forall encv lines p,
+  call q_to (Some (codec_self encv)) [py_lines lines; py_pos p] [] =
+  Ok (py_pos (fst (position_to_client_units (enc_of encv) lines p))).
+
+Definition spec_range_from (call : callT) (f : nat) : Prop := forall encv lines r, lines_fuel f lines ->
+  call q_range_from (Some (codec_self encv)) [py_lines lines; py_range r] [] =
+  Ok (py_range (fst (range_from_client_units (enc_of encv) lines r))).
+
+Lemma range_from_ok_gen call f : spec_from call f -> forall encv lines r, lines_fuel f lines ->
+  run_fun call f f_range_from_client_units (Some (codec_self encv)) [py_lines lines; py_range r] [] =
+  Ok (py_range (fst (range_from_client_units (enc_of encv) lines r))).
+Proof.
+  intros Hs encv lines [s t] Hf. unfold spec_from, codec_self, py_lines, py_pos in Hs.
+  unfold run_fun, f_range_from_client_units, codec_self, py_lines, py_range, py_pos, range_from_client_units.
+  pysimp. rewrite (Hs encv lines s Hf). pysimp. rewrite (Hs encv lines t Hf). pysimp. reflexivity.
+Qed.
+
+Lemma range_to_ok_gen call f : spec_to call -> forall encv lines r,
+  run_fun call f f_range_to_client_units (Some (codec_self encv)) [py_lines lines; py_range r] [] =
+  Ok (py_range (fst (range_to_client_units (enc_of encv) lines r))).
+Proof.
+  intros Hs encv lines [s t]. unfold spec_to, codec_self, py_lines, py_pos in Hs.
+  unfold run_fun, f_range_to_client_units, codec_self, py_lines, py_range, py_pos, range_to_client_units.
+  pysimp. rewrite (Hs encv lines s). pysimp. rewrite (Hs encv lines t). pysimp. reflexivity.
+Qed.
+
+Section Linked.
+Variable P : list fundef.
+Hypothesis F1 : find_def q_is_char P = Some f_is_char_beyond_multilingual_plane.
+Hypothesis F2 : find_def q_offset P = Some f_utf16_unit_offset.
+Hypothesis F3 : find_def q_cnu P = Some f_client_num_units.
+Hypothesis F4 : find_def q_from P = Some f_position_from_client_units.
+Hypothesis F5 : find_def q_to P = Some f_position_to_client_units.
+Hypothesis F6 : find_def q_range_from P = Some f_range_from_client_units.
+Hypothesis F7 : find_def q_range_to P = Some f_range_to_client_units.
+
+Lemma linked_is_char f d : spec_is_char (mk_call P f (S d)).
+Proof.
+  intros r cl c Hr. rewrite (mk_call_S P f d _ _ _ _ _ F1).
+  generalize (mk_call P f d); intros call.
+  unfold run_fun, f_is_char_beyond_multilingual_plane. pysimp. rewrite Hr. pysimp.
+  unfold astral. f_equal. f_equal. lia.
+Qed.
+
+Lemma linked_offset f d : spec_offset (mk_call P f (S (S d))).
+Proof.
+  intros encv s. rewrite (mk_call_S P f (S d) _ _ _ _ _ F2).
+  pose proof (linked_is_char f d) as Hc. revert Hc. generalize (mk_call P f (S d)); intros call Hc.
+  unfold run_fun, f_utf16_unit_offset, codec_self. pysimp.
+  rewrite (sum_chars_count _ astral).
+  - reflexivity.
+  - intros c. apply (Hc _ (VGlobal ["PositionCodec"])). reflexivity.
+Qed.
+
+Lemma linked_cnu f d : spec_cnu (mk_call P f (S (S (S d)))).
+Proof.
+  intros encv s. rewrite (mk_call_S P f (S (S d)) _ _ _ _ _ F3). apply cnu_ok_gen, linked_offset.
+Qed.
+
+Lemma linked_from f d : spec_from (mk_call P f (S (S (S (S d))))) f.
+Proof.
+  intros encv lines p Hf. rewrite (mk_call_S P f (S (S (S d))) _ _ _ _ _ F4).
+  apply from_ok_gen; [apply linked_cnu | apply (linked_is_char f (S (S d))) | apply Hf].
+Qed.
+
+Lemma linked_to f d : spec_to (mk_call P f (S (S (S (S d))))).
+Proof.
+  intros encv lines p. rewrite (mk_call_S P f (S (S (S d))) _ _ _ _ _ F5). apply to_ok_gen, linked_cnu.
+Qed.
+
+Lemma linked_range_from f d : spec_range_from (mk_call P f (S (S (S (S (S d)))))) f.
+Proof.
+  intros encv lines r Hf. rewrite (mk_call_S P f (S (S (S (S d)))) _ _ _ _ _ F6).
+  apply range_from_ok_gen; [apply linked_from | apply Hf].
+Qed.
+
+Lemma linked_range_to f d encv lines r :
+  mk_call P f (S (S (S (S (S d))))) q_range_to (Some (codec_self encv)) [py_lines lines; py_range r] [] =
+  Ok (py_range (fst (range_to_client_units (enc_of encv) lines r))).
+Proof. rewrite (mk_call_S P f (S (S (S (S d)))) _ _ _ _ _ F7). apply range_to_ok_gen, linked_to. Qed.
+
+End Linked.
+
+Theorem ast_range_equiv f d encv lines r : (5 <= d)%nat -> lines_fuel f lines ->
+  run prog f d q_range_from (Some (codec_self encv)) [py_lines lines; py_range r] =
+    Ok (py_range (fst (range_from_client_units (enc_of encv) lines r))) /\
+  run prog f d q_range_to (Some (codec_self encv)) [py_lines lines; py_range r] =
+    Ok (py_range (fst (range_to_client_units (enc_of encv) lines r))).
+Proof.
+  intros Hd Hf. destruct (depth_ge 5 d Hd) as [d' ->]. unfold run. cbn [Nat.add]. split.
+  - apply (linked_range_from prog eq_refl eq_refl eq_refl eq_refl eq_refl); assumption.
+  - apply (linked_range_to prog eq_refl eq_refl eq_refl eq_refl eq_refl).
+Qed.
